@@ -24,6 +24,7 @@ func init() {
 	gens["Src_cors.v"] = genGoLoopCORS
 	gens["Src_bind.v"] = genGoLiteBind
 	gens["Src_keyauth.v"] = genGoLoopKeyAuth
+	gens["Src_basicauth.v"] = genGoLoopBasicAuth
 }
 
 // innerHandler finds the innermost function literal of shape func(c echo.Context) error inside fd.
@@ -122,6 +123,13 @@ func (g *goliteCfg) expr(e ast.Expr) (string, error) {
 		if v.Kind == token.INT {
 			return g.z(v.Value), nil
 		}
+		if v.Kind == token.CHAR && g.loop {
+			r, _, _, err := strconv.UnquoteChar(v.Value[1:len(v.Value)-1], '\'')
+			if err != nil {
+				return "", err
+			}
+			return g.z(strconv.Itoa(int(r))), nil
+		}
 		if v.Kind == token.STRING {
 			if g.loop {
 				s, err := strconv.Unquote(v.Value)
@@ -156,6 +164,39 @@ func (g *goliteCfg) expr(e ast.Expr) (string, error) {
 		return "ESym " + g.str(n), nil
 	case *ast.CompositeLit:
 		return "ESym " + g.str(lit(v)), nil // a constructed value (a map literal handed on): named by its Go spelling
+	case *ast.SliceExpr:
+		if g.loop && v.Max == nil {
+			x, err := g.expr(v.X)
+			if err != nil {
+				return "", err
+			}
+			switch {
+			case v.Low == nil && v.High != nil:
+				hi, err := g.expr(v.High)
+				if err != nil {
+					return "", err
+				}
+				return fmt.Sprintf("EPred \"slice_to\" [%s; %s]", x, hi), nil
+			case v.Low != nil && v.High == nil:
+				lo, err := g.expr(v.Low)
+				if err != nil {
+					return "", err
+				}
+				return fmt.Sprintf("EPred \"slice_from\" [%s; %s]", x, lo), nil
+			}
+		}
+	case *ast.IndexExpr:
+		if g.loop {
+			x, err := g.expr(v.X)
+			if err != nil {
+				return "", err
+			}
+			i, err := g.expr(v.Index)
+			if err != nil {
+				return "", err
+			}
+			return fmt.Sprintf("EPred \"index\" [%s; %s]", x, i), nil
+		}
 	case *ast.TypeAssertExpr:
 		return g.expr(v.X)
 	case *ast.StarExpr:
@@ -166,7 +207,7 @@ func (g *goliteCfg) expr(e ast.Expr) (string, error) {
 	case *ast.CallExpr:
 		n := lit(v)
 		fn := lit(v.Fun)
-		if (fn == "int64" || fn == "int" || fn == "int32") && len(v.Args) == 1 {
+		if (fn == "int64" || fn == "int" || fn == "int32" || (fn == "string" && g.loop)) && len(v.Args) == 1 {
 			return g.expr(v.Args[0])
 		}
 		if g.cells[n] {
@@ -634,6 +675,27 @@ func (g *goliteCfg) stmt(s ast.Stmt) ([]string, error) {
 		}
 		return nil, fmt.Errorf("range loop over %s is not understood", lit(v.X))
 	case *ast.ForStmt:
+		if g.loop {
+			// for i := 0; i < E; i++ { ... }
+			init, okI := v.Init.(*ast.AssignStmt)
+			cond, okC := v.Cond.(*ast.BinaryExpr)
+			post, okP := v.Post.(*ast.IncDecStmt)
+			if okI && okC && okP && init.Tok == token.DEFINE && len(init.Lhs) == 1 && lit(init.Rhs[0]) == "0" &&
+				cond.Op == token.LSS && lit(cond.X) == lit(init.Lhs[0]) && post.Tok == token.INC && lit(post.X) == lit(init.Lhs[0]) {
+				iv := lit(init.Lhs[0])
+				g.locals[iv] = true
+				hi, err := g.expr(cond.Y)
+				if err != nil {
+					return nil, err
+				}
+				body, err := g.block(v.Body.List)
+				if err != nil {
+					return nil, err
+				}
+				return []string{fmt.Sprintf("SForTo %s (%s)\n    %s", g.str(iv), hi, body)}, nil
+			}
+			return nil, fmt.Errorf("for loop is not of the form `for i := 0; i < E; i++`")
+		}
 		// only: for i := 0; i < len(X); i++ { X[i] = "" }   (blanking a slice)
 		if len(v.Body.List) == 1 {
 			if as, ok := v.Body.List[0].(*ast.AssignStmt); ok && len(as.Lhs) == 1 && len(as.Rhs) == 1 && lit(as.Rhs[0]) == `""` {
@@ -960,4 +1022,17 @@ func genGoLoopKeyAuth(repo string) (string, error) {
 		return "", err
 	}
 	return goloopHeader + "(* middleware/key_auth.go: the request handler (innermost closure) of KeyAuthWithConfig.  The extractors built by the\n   constructor are a list cell; what an extractor finds and what the validator answers are fixed functions of their arguments\n   for one request (SCallP: results from the interpreter's pred, every call recorded). *)\n" + s, nil
+}
+
+func genGoLoopBasicAuth(repo string) (string, error) {
+	s, err := goliteClosure(repo, "middleware/basic_auth.go", "BasicAuthWithConfig", "basic_auth_handler", goliteCfg{loop: true,
+		ignore: map[string]bool{}, cells: map[string]bool{},
+		tail:   map[string]bool{"next": true},
+		pure:   map[string]bool{"len": true, "strings.EqualFold": true, "strconv.Quote": true},
+		pcall:  map[string]bool{"base64.StdEncoding.DecodeString": true, "config.Validator": true},
+		extern: map[string]bool{"config.Skipper": true}})
+	if err != nil {
+		return "", err
+	}
+	return goloopHeader + "(* middleware/basic_auth.go: the request handler (innermost closure) of BasicAuthWithConfig.  Slicing, indexing, len and\n   strings.EqualFold are pure predicates; base64 decoding and the validator are fixed functions of their arguments (SCallP). *)\n" + s, nil
 }
